@@ -189,6 +189,12 @@ pub fn run_c19(cfg: &RunCfg, trace: bool) -> RunOut {
                 }
                 Res::Panic(_) => {}
             }
+        } else if matches!(op, Op::OpenRead(..) | Op::HRead(..)) {
+            // a live read handle on the file: neutral for every time stamp
+            if !got.is_ok() {
+                break;
+            }
+            cx.out.count("probe.c19.live_reader_step");
         } else {
             // ordinary contract op; a deviation ends the run (not C19's business)
             if matches!(want, Want::Unspec) || judge(&want, &got).is_some() {
